@@ -200,6 +200,15 @@ def check_layer_mapping_update(repo: Repo, res: Result) -> None:
                 p = parent(node)
                 ok = len(node.args) + len(node.keywords) == 2 or (isinstance(p, ast.BoolOp) and isinstance(p.op, ast.Or) and p.values[0] is node)
                 res.add("C05.R2", repo.key(f, stmt_of(node)) + " [lookup]", ok, "total lookup with a default" if ok else f"`{norm(node)}` yields None for layers the rule does not mention", where(f, node), kind="structural")
+    if n == 0:
+        # the map may be searched instead of indexed (`for regex, modules in mapping.items(): if regex == ...`): total by construction
+        for f in repo.all_functions():
+            if isinstance(f.node, ast.Lambda) or f.fq not in reach:
+                continue
+            for node in own_nodes(f.node):
+                if isinstance(node, ast.Call) and isinstance(node.func, ast.Attribute) and node.func.attr in ("items", "keys") and "MAP" in flow.tags(node.func.value) and isinstance(parent(node), (ast.For, ast.comprehension)):
+                    n += 1
+                    res.add("C05.R2", repo.key(f, stmt_of(node)) + " [lookup]", True, "the conversion map is searched by iteration: nothing can raise for a layer the rule does not mention", where(f, node), kind="structural")
     res.floor("C05.R2", 1, n)
 
 
